@@ -626,7 +626,7 @@ CHAIN = {
                 what="the C02 trees plus a configuration varying id (0, 1, u64::MAX), payload (empty, text, 0x00 0xFF) and what the "
                      "child returns; compared: the exact sequence of entry-point invocations (extra/missing/misplaced replies) and "
                      "id, payload and Ok/Err carried by each Reply"),
-    "C04": dict(cfgs=["events", "reply"], focus="events,data,replyev,replydata,respcount",
+    "C04": dict(cfgs=["events", "eventsE", "reply"], focus="events,data,replyev,replydata,respcount",
                 need=["ok", "reply_on_success", "instantiate", "migrate", "sudo"],
                 what="attributes (none/one/two incl. empty value), custom events (none, without and with attributes, two) and data "
                      "(absent, present-empty, present) at every node, every reply_on mode, entry kinds execute/instantiate/migrate/"
